@@ -106,6 +106,14 @@ impl Input {
         }
     }
 
+    /// Verification hook: construct an `Input` over the given buffers (the regular constructor is
+    /// crate-private because inputs are normally only created by `process`).
+    #[cfg(rustaudio_dasp_verif)]
+    #[doc(hidden)]
+    pub fn verif_new(slice: &[Buffer]) -> Self {
+        Self::new(slice)
+    }
+
     /// A reference to the buffers of the input node.
     pub fn buffers(&self) -> &[Buffer] {
         // As we know that an `Input` can only be constructed during a call to the graph `process`
